@@ -14,6 +14,7 @@ type Scenario struct {
 	Name    string
 	Setup   func(s *harness.SchedWorld)
 	Threads []func(s *harness.SchedWorld)
+	Post    func(s *harness.SchedWorld) // optional sequential tail run by the main thread after all threads finished
 	Desc    string
 }
 
@@ -41,6 +42,10 @@ func (sc *Scenario) Exec() explore.Exec {
 			}
 			harness.BlockUntil(func() bool { return s.DoneCount() == n })
 			harness.Quiesce()
+			if sc.Post != nil {
+				sc.Post(s)
+				harness.Quiesce()
+			}
 			harness.SetEventHook(nil)
 			s.CheckReads()
 			s.CheckFlushes(rootsBefore)
